@@ -221,6 +221,7 @@ pub fn check_case(c: &Case, prop: &str) -> Outcome {
     any.set_num_chains(c.num_chains);
     let n = (c.spec.num_tune + c.spec.num_draws) as usize;
     o.label(format!("chains-vs-cores:{}", if c.num_chains < c.num_cores { "<" } else if c.num_chains == c.num_cores { "=" } else { ">" }));
+    o.label_if(n == 0, "zero-draws-run");
     // reference traces (chain run alone)
     let reference: Result<Vec<Vec<String>>, String> = with_settings!(&any, s => {
         (0..c.num_chains as u64)
@@ -621,7 +622,7 @@ fn case_strategy(pause_heavy: bool, max_chains: usize) -> BoxedStrategy<Case> {
                 Just(preset),
                 density_strategy(d, 0),
                 proptest::collection::vec(-0.5f64..0.5, d),
-                (1u64..6, 2u64..7, any::<u64>(), 1usize..=max_chains, 1usize..=4),
+                (prop_oneof![1 => Just(0u64), 6 => 1u64..6], prop_oneof![1 => Just(0u64), 1 => Just(1u64), 6 => 2u64..7], any::<u64>(), 1usize..=max_chains, 1usize..=4),
                 proptest::collection::vec(op_strategy(pause_heavy), 0..60),
                 prop_oneof![3 => Just(false), 1 => Just(true)],
                 proptest::option::weighted(0.3, 0u8..6),
